@@ -22,7 +22,7 @@ namespace AgVerif.C26
 open AgVerif.Axml AgVerif.Spec.Axml AgVerif.Proof.Axml AgVerif.Gen.AxmlConsts
 
 /-- The full property: every well-formed document (`wfDoc`: root element; XML names, plain namespace URIs / prefixes, XML
-    strings as texts and attribute values; a prefix bound to one URI; every string in the pool and fit for the pool's flavour;
+    strings as texts and string attribute values, typed values of every Res_value type; a prefix bound to one URI; every string in the pool and fit for the pool's flavour;
     a resource map that does not rename an attribute; file shorter than 2^32 bytes), whose tree is in text normal form, is
     printed back from its file `encodeAxml E d` (Spec/AxmlFile.lean, the layout of the independent writer) — for every encoding
     choice `E` (UTF-8 / UTF-16, narrow / wide length prefixes, pool order, with / without resource map).
@@ -159,6 +159,12 @@ theorem attr_value_delegated (opq : Nat → Nat → Str) (d : Nat) (s : Str) :
     formatValue opq TYPE_FRACTION d s = opq TYPE_FRACTION d := by
   simp [formatValue, TYPE_STRING, TYPE_ATTRIBUTE, TYPE_REFERENCE, TYPE_FLOAT, TYPE_INT_HEX, TYPE_INT_BOOLEAN, TYPE_DIMENSION,
     TYPE_FRACTION]
+
+/-- whatever the type, the value string consists of XML characters (so `_fix_value` leaves it alone) as soon as a string value
+    does and the delegated float / dimension / fraction rendering does -/
+theorem attr_value_legal (opq : Nat → Nat → Str) (ty d : Nat) (s : Str) (hs : ty = TYPE_STRING → LegalValue s)
+    (ho : ty = TYPE_FLOAT ∨ ty = TYPE_DIMENSION ∨ ty = TYPE_FRACTION → LegalValue (opq ty d)) :
+    LegalValue (formatValue opq ty d s) := formatValue_legal opq ty d s hs ho
 
 /-! ### string pool: length prefixes (`pool_roundtrip`, prefix part) -/
 
